@@ -372,9 +372,43 @@ func c14PoolAccounting(c *Ctx) {
 				continue
 			}
 			if iff, ok := h.Instrs[len(h.Instrs)-1].(*ssa.If); ok {
-				if bo, ok := iff.Cond.(*ssa.BinOp); ok && bo.Op == token.LSS {
-					if k, isK := constInt(bo.Y); isK {
-						return fmt.Sprint(k), true
+				if bo, ok := iff.Cond.(*ssa.BinOp); ok {
+					// for i := 0; i < N; i++   or   for n := N; n > 0; n--
+					phi, isPhi := bo.X.(*ssa.Phi)
+					if !isPhi || phi.Block() != h {
+						continue
+					}
+					var init ssa.Value
+					step := int64(0)
+					for i, e := range phi.Edges {
+						if body[h.Preds[i]] {
+							if st, isB := e.(*ssa.BinOp); isB && st.X == ssa.Value(phi) {
+								if k, isK := constInt(st.Y); isK && st.Op == token.ADD {
+									step = k
+								} else if isK && st.Op == token.SUB {
+									step = -k
+								}
+							}
+						} else {
+							init = e
+						}
+					}
+					if init == nil {
+						continue
+					}
+					switch {
+					case bo.Op == token.LSS && step == 1:
+						if k0, isK := constInt(init); isK && k0 == 0 {
+							if d, ok := tripCount(c, bo.Y); ok {
+								return d, true
+							}
+						}
+					case bo.Op == token.GTR && step == -1:
+						if k0, isK := constInt(bo.Y); isK && k0 == 0 {
+							if d, ok := tripCount(c, init); ok {
+								return d, true
+							}
+						}
 					}
 				}
 			}
@@ -388,4 +422,38 @@ func c14PoolAccounting(c *Ctx) {
 	a, okA := count(dis, true)
 	b, okB := count(en, false)
 	c.Check(rule, "disable/enable|same-count", okA && okB && a == b, dis.Pos(), fmt.Sprintf("disable drains %s entries, enable creates %s", a, b))
+}
+
+// tripCount names the number of iterations: a constant, or the capacity of a channel field every store of which is a
+// make(chan, K) with one constant K.
+func tripCount(c *Ctx, v ssa.Value) (string, bool) {
+	if k, isK := constInt(v); isK {
+		return fmt.Sprint(k), true
+	}
+	if call := isBuiltinCall(v, "cap"); call != nil {
+		if ld, ok := unwrap(call.Call.Args[0]).(*ssa.UnOp); ok && ld.Op == token.MUL {
+			if fa, ok := ld.X.(*ssa.FieldAddr); ok {
+				f := fieldOf(fa)
+				size, n := int64(-1), 0
+				for _, fn := range c.OurFuncs("dnsdata/rdb") {
+					for _, st := range storesToField(fn, f) {
+						n++
+						mc, isMC := unwrap(st.Val).(*ssa.MakeChan)
+						if !isMC {
+							return "", false
+						}
+						k, isK := constInt(mc.Size)
+						if !isK || (size >= 0 && size != k) {
+							return "", false
+						}
+						size = k
+					}
+				}
+				if n > 0 && size >= 0 {
+					return fmt.Sprint(size), true
+				}
+			}
+		}
+	}
+	return "", false
 }
